@@ -7,7 +7,10 @@ CHECKS = {
              "flags matching the supplied fields; the NCP store after the write holds the settings; reading back returns PAN ID, extended "
              "PAN ID, channel, mask, update ID, network key + sequence, link key (+ hashed form), link-key table as a set of (key, "
              "partner), and - where the version can store them - the network-key frame counter (5+) and the child table (9+); counters "
-             "are written before forming, keys / children / security before forming. NetInfoMC shows the contract satisfiable by the "
+             "are written before forming, keys / children / security before forming; the node's own address is read back as the NCP runs with it, "
+             "is the supplied one wherever the NCP can take it (rewritable token from version 9 on, or permission to burn the blank write-once "
+             "token), and a trust centre that is the node itself is named by the address the NCP really runs with - also when the same backup "
+             "is restored twice (addresses take effect at the NCP's next reset). NetInfoMC shows the contract satisfiable by the "
              "intended procedure for versions 4..14 and that lost keys / late counters are caught. The real write_network_info + "
              "load_network_info(load_devices=True) run for every version 4..14 x NCP capability against the simulated NCP store with "
              "generated settings (12 quick / 300 thorough per version); TLC judges each run (Trace_NetInfo).",
@@ -26,7 +29,9 @@ CHECKS = {
              "closed}, and bursts of 10 and 40/100 concurrent mixed calls, repeated; each thread writes its own log (thread identity "
              "recorded inside the wrapped method) and TLC searches for an interleaving of the two logs that the specification allows "
              "(Trace_ThreadProxy: executed once, on the owner's thread, only after being invoked; each coroutine caller gets exactly its "
-             "own call's value or exception; plain calls return nothing; dropped and refused calls never run; nothing blocks).",
+             "own call's value or exception; plain calls return nothing; dropped and refused calls never run; nothing blocks). The loop on which "
+             "the proxy attribute was looked up is a free parameter of the model (it has no influence): bound wrappers fetched on one loop and "
+             "invoked from the other are part of every scenario family.",
         design_ref="3/C20",
         note="Real OS threads: schedules are sampled, not enumerated; the verdict depends only on per-thread order, never on wall-clock "
              "order across threads (generous wall-clock limits only detect blocking). A stopped-but-not-closed loop is outside the property.",
@@ -146,7 +151,8 @@ CHECKS = {
     "C07": dict(
         text="spec/EzspCodec.tla pins which of the three header layouts each protocol version uses and the structural rules of the codec: "
              "frame IDs and names unique per version and within the layout's ID range, a call writes sequence number, frame control and ID "
-             "in the version's layout followed by the argument encodings in declared order (positional and keyword calls identical), and a "
+             "in the version's layout followed by the argument encodings in declared order (positional calls, keyword calls in declared, reverse and "
+             "shuffled order and positional-prefix + keyword calls all identical), and a "
              "value tuple fed through the receive path comes out exactly once, under the right name, as result if a call is pending and to "
              "the callbacks otherwise, equal to what was encoded with nothing left over. EzspCodecMC checks the layouts against each "
              "other for versions 4..16. For all 11 versions and every command (about 2,900 pairs, 1 sample quick / 8 thorough, values "
